@@ -481,6 +481,57 @@ func oracleC13(c *oracleCfg) *report {
 		}
 		r.eval(s, or)
 	})
+	// late vectors: the verdict must not depend on how many tokens precede the vector (a token or
+	// byte budget in the loop makes the shift and embedding clauses fail only on long inputs)
+	sizes := []int{}
+	top := 12
+	if c.thorough() {
+		top = 16
+	}
+	for k := 4; k <= top; k++ {
+		sizes = append(sizes, 1<<k-1, 1<<k, 1<<k+1)
+	}
+	type lateFam struct {
+		ctx        int
+		head, unit string
+		vec        string
+	}
+	fams := []lateFam{
+		{0, "", "<b>", "<script>alert(1)</script>"},
+		{0, "", "<b c=d>", "<p onclick=x>"},
+		{0, "", "a ", "<svg/onload=1>"},
+		{1, "", "x=1 ", "onerror=alert(1)"},
+		{2, "' ", "x=1 ", "y onerror=alert(1)"},
+		{3, "\" ", "x=1 ", "y onerror=alert(1)"},
+		{4, "` ", "x=1 ", "y onerror=alert(1)"},
+	}
+	for _, n := range sizes {
+		for _, f := range fams {
+			s := f.head + strings.Repeat(f.unit, n) + f.vec
+			v, st := li.VerifIsXSSCtx(s, f.ctx)
+			if st != "" {
+				continue
+			}
+			if f.ctx == 0 {
+				for _, t := range []string{"x", "xy ", "'"} {
+					p, st := li.VerifIsXSSCtx(t+s, 0)
+					if st == "" && p != v {
+						r.fail("prefix-hides-or-creates", s, fmt.Sprintf("late vector after %d units: prefix %q: %v vs %v", n, t, p, v))
+					}
+				}
+			} else {
+				e, st := li.VerifIsXSSCtx(embedCtx[f.ctx]+s, 0)
+				if st == "" && e != v {
+					r.fail("embedding", s, fmt.Sprintf("late vector after %d units: ctx=%d verdict=%v embedded verdict=%v", n, f.ctx, v, e))
+				}
+			}
+			x, st := li.VerifIsXSS(s)
+			if st == "" && v && !x {
+				r.fail("not-the-disjunction", s, fmt.Sprintf("late vector after %d units: ctx=%d fires, IsXSS=false", n, f.ctx))
+			}
+			r.eval(s, v)
+		}
+	}
 	return r
 }
 
